@@ -66,8 +66,10 @@ Companions(a) ==
   IF IsSym(a) /\ r >= 2 THEN {IF a = Sym2(r) THEN Sym1(r) ELSE Sym2(r), SpA(c, r)}
   ELSE {IF a = Idx2(r, c) THEN Idx1(r, c) ELSE Idx2(r, c)}
        \cup (IF r # c THEN {IF a = SpA(r, c) THEN Idx2(c, r) ELSE SpA(c, r)} ELSE {SpB(r, c)})
-\* vector register: length = number of rows or number of columns, entries 2, 3, 4 / 2, -3, 4
-VecsFor(a) == {Vec(n, LAMBDA k : k + 1) : n \in {NR(a), NC(a)}} \cup {Vec(NC(a), LAMBDA k : Sign(k + 1) * (k + 1))}
+\* vector register: length = number of rows or number of columns; entries 2, 3, 4 (exact divisors of the
+\* Div12 family) and 0, 1, -3 (the special values 0 and 1, a negative value)
+SpecialVec == <<0, 1, -3>>
+VecsFor(a) == {Vec(n, LAMBDA k : k + 1) : n \in {NR(a), NC(a)}} \cup {Vec(n, LAMBDA k : SpecialVec[k]) : n \in {NR(a), NC(a)}}
 
 InitStates(level) ==
   LET fam(r, c) == CASE level = "full" -> FamFull(r, c) [] level = "reduced" -> FamReduced(r, c)
